@@ -340,6 +340,14 @@ pub fn base_sources(tier: Tier) -> Vec<(String, String)> {
     {
         v.push((format!("text-{i}"), s.to_string()));
     }
+    // a parse error AT a token of every kind (the reported span and text are that token's: its position must follow
+    // the layout whatever stands directly before and after it), each followed by further tokens
+    for (i, bad) in [":", "::", ",", "(", ")", "{", "}", "<", ">", "_", "x", "$T", "Bb"].iter().enumerate() {
+        v.push((format!("bad-token-{i}"), format!("start A {bad} struct B ( $T )")));
+    }
+    for (i, (pre, bad)) in [("struct A {", ":"), ("struct A { x", "::"), ("struct A ( $T", ":"), ("terminal Tok { $T :", ":"), ("terminal Tok { $T : a <", ","), ("terminal Tok { $T : a ::", "::"), ("enum A { V (", "start"), ("#[a]", "start"), ("struct A { _", "$T")].iter().enumerate() {
+        v.push((format!("bad-token-in-context-{i}"), format!("{pre} {bad} B }} terminal Tok {{ }}")));
+    }
     // accepted grammars whose result depends on more than the tokens' kinds: generic payload types at every use site,
     // attributes on every declaration, names that clash with the generator's helpers (renaming), related names
     v.push(("generic-payloads".into(), crate::c13::grammar_for("a::B<(), c9<u8, B>, x::Y>", "std::vec::Vec<(a, B)>".replace("(a, B)", "a::B").as_str())));
